@@ -41,6 +41,7 @@ class Knobs:
         # | "errors" (error handlers registered at several nesting levels, unrelated handlers in between)
         self.flavour = None
         self.p_generics = 0.5
+        self.p_modules = 0.3
         self.__dict__.update(kw)
         if self.flavour == "observers":
             self.n_obs = (3, 6)
@@ -435,6 +436,8 @@ def gen_inclass(rng, knobs=None):
     if kn.avoid_known:
         repair_known(spec)
     vary_cloning_representation(rng, spec)
+    if rng.random() < kn.p_modules:
+        modularize(rng, spec)
     return spec
 
 
@@ -478,6 +481,20 @@ def add_generics(rng, spec, kn):
             cid = "CG0_g%d" % n
             spec["ctors"][cid] = {"out": g + "<T>", "ins": [["T", "ref"]], "lc": lc, "generic_param": "T"}
         bp["items"].insert(0, ["ctor", cid])
+
+
+def modularize(rng, spec):
+    """Put some constructors into modules under a shared function name (`m3::connect`, `m7::connect`): every name the
+    compiler derives from the function name (state fields, error variants, ...) then needs disambiguation."""
+    names = ["connect", "build", "new"]
+    cids = [cid for cid, c in spec["ctors"].items() if not c.get("generic_param")]
+    rng.shuffle(cids)
+    # fallible singletons first: their errors become variants of the application state error
+    cids.sort(key=lambda cid: 0 if (spec["ctors"][cid]["lc"] == "singleton" and spec["ctors"][cid].get("fallible")) else 1)
+    fn = rng.choice(names)
+    for cid in cids[:rng.choice([2, 3, 4])]:
+        spec["ctors"][cid]["module"] = "m_" + cid.lower()
+        spec["ctors"][cid]["fn_name"] = fn
 
 
 def vary_cloning_representation(rng, spec):
